@@ -17,6 +17,7 @@ from .. import values as V
 from .. import wire as W
 
 ID = "C01"
+CHECK_BUILT_DESCRIPTOR = True     # engine.oracle_of: declared records must carry their declared descriptor
 CLAIM = dict(
     text="Kernel-checked: C01_stream_roundtrip - for EVERY admissible history of records and grouped records (any "
          "number, any interleaving of descriptors incl. colliding identifiers in separate objects, nesting to any depth, "
